@@ -90,6 +90,7 @@ type rangeScn struct {
 	seenMac []int
 	base    uint32
 	id      int
+	cids    map[string][]byte
 	dbq     string  // query part of the database argument (fault scenarios: a short busy timeout)
 	foreign *sql.DB // the environment's own connection to the lease database
 	fconn   *sql.Conn
@@ -188,11 +189,52 @@ func (s *rangeScn) idxOf(ip net.IP) (int, bool) {
 	return int(v - s.base), true
 }
 
+var cidMu sync.Mutex
+
+// clientID: a function of the hardware address alone (concurrent callers get the same answer, no shared random state)
+func (s *rangeScn) clientID(mac net.HardwareAddr) []byte {
+	cidMu.Lock()
+	defer cidMu.Unlock()
+	k := mac.String()
+	if s.cids == nil {
+		s.cids = map[string][]byte{}
+	}
+	if c, ok := s.cids[k]; ok {
+		return c
+	}
+	sum := s.id
+	for _, x := range mac {
+		sum = sum*31 + int(x)
+	}
+	if sum < 0 {
+		sum = -sum
+	}
+	var c []byte
+	switch {
+	case len(mac) == 0:
+		c = append([]byte{0x20}, []byte{0, 0, 0, 0, 0, 0, 0, 0, 0x12, 0x34, 0x56, 0x78, 0x9a, 0xbc, 0xde, byte(s.id)}...)
+	case sum%4 == 0:
+		c = append([]byte{1}, mac...)
+	case sum%4 == 1 && sum%3 == 0:
+		c = []byte{0, 'c', 'i', 'd', byte('0' + sum%10)}
+	}
+	s.cids[k] = c
+	return c
+}
+
 // callHandler runs one request through handler h and abstracts the result.
 func (s *rangeScn) callHandler(h handler.Handler4, mt dhcpv4.MessageType, mac net.HardwareAddr, hostClass string) Ev {
 	req, resp, err := buildReq4(mt, mac, hostClass, s.r)
 	if err != nil {
 		return Ev{"res": "builderr", "idx": -1, "lease": -1, "stop": false, "msg": err.Error()}
+	}
+	// a client identifier option, the same in every message of that client: always for the client without hardware
+	// address (hlen 0, RFC 4390 style), sometimes for the others - leases are bound to the hardware address
+	if cid := s.clientID(mac); cid != nil {
+		req.Options[uint8(dhcpv4.OptionClientIdentifier)] = cid
+		if again, err := dhcpv4.FromBytes(req.ToBytes()); err == nil {
+			req = again
+		}
 	}
 	var (
 		out  *dhcpv4.DHCPv4
